@@ -150,6 +150,15 @@ func scanGuard(c *core.Ctx) []ob {
 			}
 			sub := substs[bi]
 			ast.Inspect(fd.Body, func(nd ast.Node) bool {
+				// a clause of a tagless switch that leaves with an error is the same guard as an if
+				if cc, isClause := nd.(*ast.CaseClause); isClause && !found && len(cc.List) > 0 {
+					if sw, ok := parentMapCached(fd)[parentMapCached(fd)[nd]].(*ast.SwitchStmt); ok && sw.Tag == nil {
+						nd = &ast.IfStmt{If: cc.Pos(), Cond: cc.List[0], Body: &ast.BlockStmt{Lbrace: cc.Colon, List: cc.Body, Rbrace: cc.End()}}
+						for _, extra := range cc.List[1:] {
+							nd.(*ast.IfStmt).Cond = &ast.BinaryExpr{X: nd.(*ast.IfStmt).Cond, Op: token.LOR, Y: extra}
+						}
+					}
+				}
 				is, ok := nd.(*ast.IfStmt)
 				if !ok || found {
 					return true
@@ -196,7 +205,7 @@ func scanGuard(c *core.Ctx) []ob {
 				})
 				// the same through chains of such locals (totDegree := degree0 + degree1; degree0, degree1 := op0.Degree(), …):
 				// the condition with every single-definition local replaced by its definition
-				cond += " ; " + expandLocals(fd, is, is.Cond, 0)
+				cond += " ; " + expandLocals(fd, is.Cond, is.Cond, 0)
 				if len(sub) > 0 {
 					// in a helper: the condition once more with the helper's parameters replaced by the caller's arguments
 					sc := cond
@@ -238,7 +247,14 @@ func scanGuard(c *core.Ctx) []ob {
 									continue
 								}
 								// ordering comparisons: the sides matter, and the mirrored spelling (b > a for a < b) is the same test
-								lx, ly := exprString(v.X), exprString(v.Y)
+								lx, ly := exprString(v.X)+" ; "+expandLocals(fd, is.Cond, v.X, 0), exprString(v.Y)+" ; "+expandLocals(fd, is.Cond, v.Y, 0)
+							if len(sub) > 0 {
+								for pn, at := range sub {
+									re := regexp.MustCompile(`\b` + regexp.QuoteMeta(pn) + `\b`)
+									lx += " ; " + re.ReplaceAllString(lx, strings.ReplaceAll(at, "$", "$$"))
+									ly += " ; " + re.ReplaceAllString(ly, strings.ReplaceAll(at, "$", "$$"))
+								}
+							}
 								mirror := map[token.Token]token.Token{token.LSS: token.GTR, token.GTR: token.LSS, token.LEQ: token.GEQ, token.GEQ: token.LEQ}
 								if v.Op == o && strings.Contains(lx, g.tokens[0]) && strings.Contains(ly, g.tokens[1]) {
 									opOK = true
